@@ -412,3 +412,103 @@ Example Protocol_is_coarser_on_slow :
        [(Started 0, HAccepted); (Finished 0 (mk_attempt Pass true 1 1), HNone)] = true /\
   forallb (simple_event 0) [(Started 0, HAccepted); (Finished 0 (mk_attempt Pass true 1 1), HNone)] = false.
 Proof. split; vm_compute; reflexivity. Qed.
+
+(* ================================================================ closed over the request channels
+   Model/LifeClosed.v: the same product, but the units are bare life machines (no environment
+   check) and every request a unit consumes is one the dispatcher model has put into that unit's
+   FIFO channel: the broadcast DispatcherContext::run makes for the response of a step, to every
+   unit registered in running_tests after the step, and handle_event's own repeat of OtherCancel
+   (F10 repair).  A unit reads its channel only in a wait loop; in the delay between attempts no
+   time passes while a cancel request is waiting in the channel.
+   Every run of this machine is a run of the open product with the environment check on: the
+   premise [lenv_ok] of Model/UnitLife.v -- Stop / Continue alternate, Once before Twice,
+   RetryStarted refused after a cancel delivery, no time in a retry delay after one -- is DERIVED
+   from the dispatcher model (Proofs/DispatcherEnv.v's step lemma, cancel_state monotone, "a cancel
+   request is only sent when cancel_state is set", the unicast of the AttemptFailedWillRetry arm). *)
+From NextestModel Require Import Model.LifeClosed Proofs.LifeClosed.
+
+Theorem Closed_run_is_product_run :
+  forall S mf dbg ls zf ah,
+    cfg_ok (cfg_of_lsystem S) = true ->
+    zrun pause_table S (zstate0 S mf dbg) ls = Some (zf, ah) ->
+    exists yf, yrun true pause_table S (ystate0 S mf dbg) ls = Some (yf, ah) /\
+               ys_d yf = Live (zs_d zf) /\
+               forall t, memb t (ls_sel S) = true -> y_s (ys_u yf t) = zs_u zf t.
+Proof. exact (closed_run_is_product_run pause_table). Qed.
+Print Assumptions Closed_run_is_product_run.
+
+(* the premise of every theorem of Properties/UnitLife.v holds of every unit of a closed run *)
+Theorem Closed_run_units_are_environment_valid :
+  forall S mf dbg ls zf ah,
+    cfg_ok (cfg_of_lsystem S) = true ->
+    zrun pause_table S (zstate0 S mf dbg) ls = Some (zf, ah) ->
+    forall t, In t (ls_sel S) ->
+      exists y, lsys_run true pause_table (ls_cfg S t) (lsys0 (ls_cfg S t)) (unit_events t ls) = LOk y /\
+                y_s y = zs_u zf t.
+Proof. exact (closed_run_units_valid pause_table). Qed.
+Print Assumptions Closed_run_units_are_environment_valid.
+
+Theorem Closed_run_history_is_wf :
+  forall S mf dbg ls zf ah,
+    cfg_ok (cfg_of_lsystem S) = true ->
+    zrun pause_table S (zstate0 S mf dbg) ls = Some (zf, ah) ->
+    life_history true pause_table S mf dbg (map fst ah) /\
+    wf_history (cfg_of_lsystem S) mf dbg (map fst ah) = true /\
+    final_state (Live (init_for (cfg_of_lsystem S) mf dbg)) (map fst ah) = Live (zs_d zf).
+Proof. exact (closed_run_life_history pause_table). Qed.
+Print Assumptions Closed_run_history_is_wf.
+
+Theorem C01_exit_is_spec_for_closed_runs :
+  forall S mf dbg ls zf ah p,
+    cfg_ok (cfg_of_lsystem S) = true ->
+    zrun pause_table S (zstate0 S mf dbg) ls = Some (zf, ah) ->
+    (shutdown_count (map fst ah) <= 2)%nat ->
+    run_exit (cfg_of_lsystem S) mf dbg (map fst ah) p
+    = Some (spec_exit (cfg_of_lsystem S) (map fst ah) p).
+Proof. exact (closed_exit_is_spec pause_table). Qed.
+Print Assumptions C01_exit_is_spec_for_closed_runs.
+
+(* C10 "... rather than sitting out retry delays", with nothing assumed about deliveries *)
+Theorem C10_no_delay_after_cancel_for_closed_runs :
+  forall S mf dbg ls zf ah,
+    cfg_ok (cfg_of_lsystem S) = true ->
+    zrun pause_table S (zstate0 S mf dbg) ls = Some (zf, ah) ->
+    forall t, In t (ls_sel S) ->
+      exists y, lsys_run true pause_table (ls_cfg S t) (lsys0 (ls_cfg S t)) (unit_events t ls) = LOk y /\
+                y_dc y = 0.
+Proof. exact (closed_no_delay_after_cancel pause_table). Qed.
+Print Assumptions C10_no_delay_after_cancel_for_closed_runs.
+
+Definition zrun_summary (r : option (zstate * list (devent * handshake)))
+  : option (list devent * list (list ureq)) :=
+  match r with
+  | Some (z, ah) => Some (map fst ah, map (zs_mail z) [0; 1])
+  | None => None
+  end.
+
+(* the witness run of above is a run of the closed machine: the two OtherCancel requests unit 1
+   consumes are the broadcast made when test 0's failure reached the limit and the dispatcher's
+   repeat after AttemptFailedWillRetry 2; both channels are empty at the end *)
+Example LifeRefines_closed_run :
+  zrun_summary (zrun pause_table lr_sys (zstate0 lr_sys (Some 1) true) lr_run) = Some (lr_history, [[]; []]).
+Proof. vm_compute. reflexivity. Qed.
+
+(* the channel discipline is not idle: a request that was not sent cannot be consumed; Stop twice
+   in a row cannot be consumed because the dispatcher never sends it (SIGTSTP twice: one broadcast);
+   and with a cancel request waiting no time passes in the retry delay *)
+Example LifeRefines_closed_rejects :
+  zrun pause_table lr_sys (zstate0 lr_sys (Some 1) true)
+       [YOther (ScriptStarted 0); YOther (ScriptFinished 0 Pass); YUnit 1 (LAnswer true);
+        YUnit 1 (LU (Req ROtherCancel))] = None /\
+  zrun pause_table lr_sys (zstate0 lr_sys (Some 1) true)
+       [YOther (ScriptStarted 0); YOther (ScriptFinished 0 Pass); YUnit 1 (LAnswer true);
+        YOther SigStop; YOther SigStop; YUnit 1 (LU (Req RStop)); YUnit 1 (LU (Req RStop))] = None /\
+  zrun_summary (zrun pause_table lr_sys (zstate0 lr_sys (Some 1) true)
+       [YOther (ScriptStarted 0); YOther (ScriptFinished 0 Pass); YUnit 1 (LAnswer true);
+        YOther SigStop; YOther SigStop; YUnit 1 (LU (Req RStop))])
+  = Some ([ScriptStarted 0; ScriptFinished 0 Pass; Started 1; SigStop; SigStop], [[]; []]) /\
+  zrun pause_table lr_sys (zstate0 lr_sys (Some 1) true)
+       (firstn 17 lr_run ++ [YUnit 1 (LU (Tick 5))]) = None /\
+  zrun_summary (zrun pause_table lr_sys (zstate0 lr_sys (Some 1) true) (firstn 17 lr_run))
+  = Some (removelast lr_history, [[]; [ROtherCancel]]).
+Proof. repeat split; vm_compute; reflexivity. Qed.
